@@ -241,12 +241,17 @@ package graphql
 //@ nonnil elem *graphql.Fragment, elem *graphql.Directive, elem *graphql.Object, elem *graphql.outputNode, elem *graphql.Selection, elem *graphql.Field, elem *graphql.Scalar, elem *graphql.Enum, elem *graphql.Union, elem *graphql.List, elem *graphql.NonNull
 //@ nonnil graphql.Fragment.SelectionSet        // every fragment the parser builds has a selection set (the grammar requires one)
 //@ trusted func parser.Parse
+//@   assigns nothing                    // the third-party parser builds a fresh AST from the source text
 //@   ensures err == nil ==> result != nil
 
 // Parse: every fragment definition gets an entry in the fragment table before any selection set is converted,
 // and converting selection sets (which only writes Fragment objects) leaves the tables themselves alone.
 //@ func Parse
 //@   keeps map[string]*Fragment, map[string]*ast.FragmentDefinition
+//@   call mapupdate assert fresh(arg0)                       // C18: Parse only writes maps it allocated - never the caller's variables
+//@   call valueToJson assert vars[name] == nil && arg1 == nil   // C18: a variable's default is evaluated only when no non-null value was supplied
+//@   loop 2 invariant (defaultedVars == nil || fresh(defaultedVars)) && (forall k string :: vars[k] == old(vars[k]))
+//@   loop 3 invariant defaultedVars != nil && fresh(defaultedVars) && (forall k string :: vars[k] == old(vars[k]))
 //@   loop 4 invariant forall k string :: visited[k] ==> (k in globalFragments)
 //@   loop 5 invariant forall k string :: (k in fragmentDefinitions) ==> (k in globalFragments)
 
